@@ -184,6 +184,17 @@ def h_csq(ctx, d, N, kind, box, qvec, sel=None, types=None):
             comps = [mode(n, lambda i: 1 if sel[i] else 0)]
         elif kind == "float":
             comps = [mode(n, lambda i: vals[i])]
+        elif kind == "complex":
+            # sum_i (a_i + i b_i) exp(-i q.r_i) = sum (a c + b s) + i sum (b c - a s)
+            ar, ai = vals
+            R = I = 0
+            for i in range(N):
+                th = 0
+                for a in range(d):
+                    th = th + (2 * pi_ * int(n[a]) / L[a]) * prow[i][a]
+                c, s_ = O.cos_sin(th)
+                R, I = R + ar[i] * c + ai[i] * s_, I + ai[i] * c - ar[i] * s_
+            comps = [(R, I)]
         else:
             comps = [mode(n, lambda i, c=c: vals[i, c]) for c in range(d)]
         ref = sum(re * re + im * im for re, im in comps) / Na
@@ -228,6 +239,8 @@ def cfg_gr(tier, seed):
     for kind in ("float", "complex", "vector", "tensor"):
         out.append(dict(d=2, N=3, kind=kind, cell="sym-o", ppp=per, Bmax=2))
     out.append(dict(d=2, N=3, kind="float", cell="sym-o", ppp=opn, Bmax=1))
+    out.append(dict(d=2, N=3, kind="float", cell="t-", ppp=per, Bmax=2))          # triclinic, negative tilt
+    out.append(dict(d=2, N=3, kind="bool", cell="t+", ppp=per, Bmax=1, sel=[True, False, True], types=[1, 2, 1]))
     if tier == "thorough":
         for kind in ("bool", "float", "vector", "tensor"):
             out.append(dict(d=3, N=3, kind=kind, cell="sym-o", ppp=[1, 1, 1], Bmax=1, sel=[True, False, True], types=[1, 2, 1]))
@@ -244,6 +257,7 @@ def cfg_sq(tier, seed):
         out.append(dict(d=2, N=3, kind="bool", box=0, qvec=q2, sel=sel, types=[1, 2, 1]))
     out.append(dict(d=2, N=3, kind="float", box=1, qvec=q2b))
     out.append(dict(d=2, N=3, kind="vector", box=2, qvec=q2))
+    out.append(dict(d=2, N=3, kind="complex", box=1, qvec=q2b))
     out.append(dict(d=3, N=2, kind="float", box=0, qvec=[[1, 0, 0], [0, 0, 1], [0, -1, 0]]))
     if tier == "thorough":
         out.append(dict(d=3, N=3, kind="vector", box=1, qvec=[[1, 0, 0], [0, 1, 0], [1, 1, 0]]))
